@@ -40,9 +40,13 @@ type scen struct {
 	b   *harness.B
 	c   *chaingen.Chain
 	fam string
+	adv func() bool // overrides how the chain is advanced between probes (default: an empty block on schedule)
 }
 
 func (s *scen) advance() bool {
+	if s.adv != nil {
+		return s.adv()
+	}
 	blk, bs, err := s.c.EmptyBlock()
 	if err != nil {
 		s.b.Inconclusive("cannot seal an empty block: " + err.Error())
@@ -184,6 +188,11 @@ func (s *scen) payTo(addr types.Address) (types.SiacoinOutputID, bool) {
 }
 
 func (s *scen) spendV1(id types.SiacoinOutputID, l *chaingen.Lock, sigTimelock uint64) func() (types.Block, consensus.V1BlockSupplement, error) {
+	return s.spendV1Sel(id, l, sigTimelock, nil)
+}
+
+// spendV1Sel: as spendV1, with the signature timelock set only on the signatures whose key sel selects (nil = all).
+func (s *scen) spendV1Sel(id types.SiacoinOutputID, l *chaingen.Lock, sigTimelock uint64, sel func(uk types.UnlockKey) bool) func() (types.Block, consensus.V1BlockSupplement, error) {
 	return func() (types.Block, consensus.V1BlockSupplement, error) {
 		e, ok := s.c.S.SCEs[id]
 		if !ok {
@@ -195,6 +204,9 @@ func (s *scen) spendV1(id types.SiacoinOutputID, l *chaingen.Lock, sigTimelock u
 		if sigTimelock > 0 {
 			for i := range txn.Signatures {
 				ts := &txn.Signatures[i]
+				if sel != nil && !sel(l.UC.PublicKeys[ts.PublicKeyIndex]) {
+					continue
+				}
 				ts.Timelock = sigTimelock
 				var pk types.PublicKey
 				copy(pk[:], l.UC.PublicKeys[ts.PublicKeyIndex].Key)
@@ -319,6 +331,22 @@ func (s *scen) v1Timelocks() {
 		T2 := s.c.Height() + 3
 		s.run(probe{name: "v1-signature-timelock", mk: s.spendV1(id, l2, T2), want: func(tip consensus.State) bool { return tip.Index.Height+1 >= T2 }, ruleErr: re("timelock of signature"), steps: 5})
 	}
+	// the same rule for a signature under a key of an unrecognised algorithm (accepted without verification, but
+	// still a signature with a timelock): 2-of-2 of an ed25519 key and such a key, timelock on the latter only
+	if !s.v1Allowed() || s.c.Height()+6 >= s.c.Net.N.HardforkV2.RequireHeight {
+		return
+	}
+	uk := types.UnlockKey{Algorithm: types.NewSpecifier("lattice"), Key: []byte{1, 2, 3, byte(s.c.Height())}}
+	uc2 := types.UnlockConditions{PublicKeys: []types.UnlockKey{k.PublicKey().UnlockKey(), uk}, SignaturesRequired: 2}
+	if s.c.Rng.IntN(2) == 0 {
+		uc2.PublicKeys[0], uc2.PublicKeys[1] = uc2.PublicKeys[1], uc2.PublicKeys[0]
+	}
+	l3 := &chaingen.Lock{Kind: "uc-unknown-alg", Addr: uc2.UnlockHash(), UC: &uc2, UCSigners: []int{0, 1}, Policy: types.SpendPolicy{Type: types.PolicyTypeUnlockConditions(uc2)}, PolKeys: []types.PublicKey{k.PublicKey()}}
+	s.c.W.Locks[l3.Addr] = l3
+	if id, ok := s.payTo(l3.Addr); ok {
+		T3 := s.c.Height() + 3
+		s.run(probe{name: "v1-signature-timelock/unrecognised-key-algorithm", mk: s.spendV1Sel(id, l3, T3, func(u types.UnlockKey) bool { return u.Algorithm != types.SpecifierEd25519 }), want: func(tip consensus.State) bool { return tip.Index.Height+1 >= T3 }, ruleErr: re("timelock of signature"), steps: 5})
+	}
 }
 
 func (s *scen) v2Locks() {
@@ -365,6 +393,68 @@ func (s *scen) v2Locks() {
 			s.b.Count("after_policy_median_equal_to_lock_time_visited", 1)
 		}
 	}
+}
+
+// v2AfterNonMonotonic: after(t) against the median of the last 11 timestamps when block timestamps are legal but
+// not monotonic (blocks stamped far ahead, followed by blocks stamped at the earliest legal time, ties). The median
+// is recomputed by the harness from State.PrevTimestamps.
+func (s *scen) v2AfterNonMonotonic() {
+	if !s.v2Allowed() {
+		return
+	}
+	iv := s.c.Net.N.BlockInterval
+	if iv < time.Second {
+		iv = time.Second
+	}
+	rng := s.c.Rng
+	shake := func() bool {
+		tip := s.c.Tip()
+		med := chaingen.Median(tip)
+		if med.Nanosecond() != 0 {
+			med = med.Truncate(time.Second).Add(time.Second) // block timestamps carry whole seconds
+		}
+		var ts time.Time
+		switch rng.IntN(5) {
+		case 0:
+			ts = tip.PrevTimestamps[0].Add(time.Duration(20+rng.IntN(200)) * iv) // far ahead of the parent
+		case 1, 2:
+			ts = med // earliest legal value (may lie before the parent's)
+		default:
+			ts = med.Add(time.Duration(rng.IntN(30)) * iv)
+		}
+		blk, bs, err := s.c.EmptyBlockAt(ts)
+		if err != nil {
+			s.b.Inconclusive("cannot seal an empty block: " + err.Error())
+			return false
+		}
+		if err := s.c.Offer(blk, bs, nil); err != nil {
+			s.b.Violate("C08/empty-block-rejected", "an empty block with a legal non-monotonic timestamp was rejected: "+chaingen.NormErr(err), map[string]any{"height": s.c.Height() + 1})
+			return false
+		}
+		if !ts.After(tip.PrevTimestamps[0]) {
+			s.b.Count("blocks_stamped_not_after_their_parent", 1)
+		}
+		return true
+	}
+	for i := 0; i < 12; i++ {
+		if !shake() {
+			return
+		}
+	}
+	k := s.c.W.Keys[1]
+	t := chaingen.Median(s.c.Tip()).Add(time.Duration(1+rng.IntN(40)) * iv)
+	pt := types.PolicyThreshold(2, []types.SpendPolicy{types.PolicyAfter(t), types.PolicyPublicKey(k.PublicKey())})
+	lt := &chaingen.Lock{Kind: "thresh", Addr: pt.Address(), Policy: pt, FullPolicy: pt, PolKeys: []types.PublicKey{k.PublicKey()}, V1MinChild: 1 << 40, V2AfterTime: t}
+	s.c.W.Locks[lt.Addr] = lt
+	id, ok := s.payTo(lt.Addr)
+	if !ok {
+		return
+	}
+	s.adv = shake
+	defer func() { s.adv = nil }()
+	s.run(probe{name: "v2-policy-after-compares-median-timestamp/non-monotonic-timestamps", mk: s.spendV2(id, lt), want: func(tip consensus.State) bool {
+		return chaingen.Median(tip).After(t)
+	}, ruleErr: re("not after"), steps: 16})
 }
 
 func (s *scen) v1Contracts() {
@@ -718,6 +808,9 @@ func run(b *harness.B) {
 				s.v1Timelocks()
 			case 2:
 				s.v2Locks()
+				if r%2 == 0 {
+					s.v2AfterNonMonotonic()
+				}
 			case 3:
 				s.v1Contracts()
 			case 4:
